@@ -191,3 +191,61 @@ func DigestB(b []byte) string {
 	}
 	return strconv.FormatUint(h, 16)
 }
+
+// Tree renders v as a generic tree (map[string]interface{} for structs and
+// string-keyed maps, []interface{} for slices, float64 / string / bool leaves),
+// following pointers and including unexported fields: the structural twin of
+// Deep, used where an oracle has to look values up instead of comparing text.
+func Tree(v interface{}) interface{} {
+	return treeOf(reflect.ValueOf(v), 0)
+}
+
+func treeOf(v reflect.Value, depth int) interface{} {
+	if !v.IsValid() || depth > 40 {
+		return nil
+	}
+	switch v.Kind() {
+	case reflect.Bool:
+		return v.Bool()
+	case reflect.Int, reflect.Int8, reflect.Int16, reflect.Int32, reflect.Int64:
+		return float64(v.Int())
+	case reflect.Uint, reflect.Uint8, reflect.Uint16, reflect.Uint32, reflect.Uint64, reflect.Uintptr:
+		return float64(v.Uint())
+	case reflect.Float32, reflect.Float64:
+		return v.Float()
+	case reflect.String:
+		return v.String()
+	case reflect.Ptr, reflect.Interface:
+		if v.IsNil() {
+			return nil
+		}
+		return treeOf(v.Elem(), depth+1)
+	case reflect.Struct:
+		m := map[string]interface{}{}
+		t := v.Type()
+		for i := 0; i < v.NumField(); i++ {
+			m[t.Field(i).Name] = treeOf(v.Field(i), depth+1)
+		}
+		return m
+	case reflect.Slice, reflect.Array:
+		if v.Kind() == reflect.Slice && v.IsNil() {
+			return nil
+		}
+		out := make([]interface{}, v.Len())
+		for i := range out {
+			out[i] = treeOf(v.Index(i), depth+1)
+		}
+		return out
+	case reflect.Map:
+		if v.IsNil() {
+			return nil
+		}
+		m := map[string]interface{}{}
+		it := v.MapRange()
+		for it.Next() {
+			m[fmt.Sprint(treeOf(it.Key(), depth+1))] = treeOf(it.Value(), depth+1)
+		}
+		return m
+	}
+	return nil
+}
